@@ -1,7 +1,7 @@
 # C19 -- allocation failure propagates cleanly and leaves every object destructible
 LEVEL = 'model_checking'
 EXPLANATION = ('Single-fault injection as a SYMBOLIC variable: fail_at in [0, k) selects the allocation (operator new / new[]) that throws std::bad_alloc, on top of the inductive-step harnesses of C05 (buffer), C16 (string_stream growth), '
-               'C08 (slicing), C03 (conversions), C14 (codecs) and C09 (split through the vector model, whose growth is one more injectable failure point). Asserted after the failure: std::bad_alloc is what escapes; every involved object '
+               'C04 (ST::string copy / assignment / += / + / slicing / case mapping / trim / replace), C08 (slicing), C03 (conversions), C14 (codecs) and C09 (split through the vector model, whose growth is one more injectable failure point). Asserted after the failure: std::bad_alloc is what escapes; every involved object '
                'satisfies its representation invariant and holds its previous value or is empty; data() is not a released pointer (dereferencing it is a checked access); destroying everything with the real destructors gives no double free, '
                'no free of in-object storage and no leak (live-block counter).')
 BOUNDS = {'quick': 'one failing allocation per operation, every allocation index the operation can reach; buffer sizes 0..L+2 (char and char32_t), stream capacity 8/16, strings <= 5 bytes',
@@ -25,6 +25,12 @@ def queries():
     for form, nm in ((1, 'substr'),):
         for heap in (1,):   # an in-object source (< 4 bytes) never makes substr allocate
             qs.append(Q('%s_%s' % (nm, 'heap' if heap else 'sso'), 'C08_slice.c', 'string.cpp', config='small', defs={'OP': 1, 'FORM': 1, 'MAXS': 5, 'SRC_HEAP': heap, 'FAULT': 2}, unwind=8, heap_cap=16, bound={'op': nm, 'size': 5, 'source storage': 'heap' if heap else 'in-object'}))
+    # ST::string operations (the value-semantics harness of C04 with a symbolic failing allocation): copy, assignment, +=, +, slicing, case mapping, trim, replace
+    for op, nm, mm, tiers in ((1, 'copy_ctor', 5, ('quick', 'thorough')), (2, 'copy_assign', 5, ('quick', 'thorough')), (5, 'append_self', 4, ('quick', 'thorough')), (7, 'concat', 4, ('quick', 'thorough')), (8, 'substr_whole', 5, ('quick', 'thorough')),
+                              (10, 'trim', 5, ('quick', 'thorough')), (11, 'to_upper', 5, ('quick', 'thorough')), (12, 'left_all', 5, ('thorough',)), (13, 'right_all', 5, ('quick', 'thorough')), (15, 'append', 4, ('quick', 'thorough')),
+                              (6, 'replace_self', 4, ('thorough',)), (9, 'replace_nomatch', 4, ('thorough',))):
+        qs.append(Q('string_%s' % nm, 'C04_value.c', 'string.cpp', config='small', defs={'OP': op, 'MAXS': mm, 'FAULT': 3}, unwind=2 * mm + 4, heap_cap=4 * mm + 8, tiers=tiers,
+                    loops=[(r'vpx_memcmp', mm + 1), (r'vpx_memchr', mm + 2)], bound={'op': nm, 'strings<=': mm, 'failing allocation': 'index 0, 1 or 2 of the operation'}, timeout=900 if op not in (6, 9) else 3000, mem_gb=10))
     import importlib.util, os
     _s = importlib.util.spec_from_file_location('convcommon', os.path.join(os.path.dirname(__file__), 'convcommon.py')); cc = importlib.util.module_from_spec(_s); _s.loader.exec_module(cc)
     for src, dst, n in (('u8', 'u16', 4), ('u16', 'u8', 3), ('l1', 'u32', 4)):
